@@ -32,7 +32,7 @@ RULE = ("seeded performed parts: 0-8 (large profile 10-60) notes drawn from 1-3 
         "without optional keys and stale sound_off; 0-8 (large 0-50) sustain events with values random/binary/around the threshold/"
         "ramp, before the first and after the last note, interleaved with controllers 1,7,10,11,66,67,91; 3-8 thresholds 0..127 per "
         "part assigned up and down on the same object; random ppq/mpq; then note_array(), from_note_array(), late control edits; "
-        "Performances of 1-4 parts with clashing track numbers; thorough adds MIDI/match fixtures with threshold sweeps. One case = "
+        "Performances of 1-4 parts with clashing track numbers (thorough: also under PYTHONHASHSEED 1-3); the MIDI/match fixtures of tests/data loaded through the public loaders with a 9-step threshold sweep. One case = "
         "one (notes, controls, threshold) evaluation; non-trivial when the reference model decides at least one pedal-extended note "
         "AND (a note ended by a re-strike under pedal OR an equal-pitch overlap is present) — or, for Performances, two parts share "
         "a track number; distinct by digest of (notes, sustain events, threshold)")
@@ -633,21 +633,20 @@ def report(ctx, case, found):
 
 
 def plan(tier, seed):
-    if tier == "quick":
-        items = [["gen", i, 60, "small"] for i in range(176)] + [["gen", 100000 + i, 8, "large"] for i in range(32)]
-        items += [["perf", i, 60] for i in range(16)] + [["edge"]]
-        return items
-    items = [["gen", i, 100, "small"] for i in range(1800)] + [["gen", 100000 + i, 12, "large"] for i in range(640)]
-    items += [["perf", i, 100] for i in range(160)] + [["edge"]]
     fx = []
     data = os.path.join(core.REPO, "tests", "data")
     for sub in ("midi", "match"):
         d = os.path.join(data, sub)
         if os.path.isdir(d):
             fx += [["fixture", f"{sub}/{f}"] for f in sorted(os.listdir(d)) if f.endswith((".mid", ".midi", ".match"))]
-    items += fx
+    if tier == "quick":
+        items = [["gen", i, 60, "small"] for i in range(176)] + [["gen", 100000 + i, 8, "large"] for i in range(32)]
+        items += [["perf", i, 60] for i in range(16)] + [["edge"]]
+        return fx + items
+    items = [["gen", i, 100, "small"] for i in range(1800)] + [["gen", 100000 + i, 12, "large"] for i in range(640)]
+    items += [["perf", i, 100] for i in range(160)] + [["edge"]]
     # a few batches again under other hash seeds (track renumbering iterates over a set)
-    return {"0": items, "1": [["perf", i, 100] for i in range(16)] + [["gen", i, 100, "small"] for i in range(16)],
+    return {"0": fx + items, "1": [["perf", i, 100] for i in range(16)] + [["gen", i, 100, "small"] for i in range(16)],
             "2": [["perf", i, 100] for i in range(16)], "3": [["perf", i, 100] for i in range(16)]}
 
 
